@@ -337,10 +337,12 @@ def check_undefined_symbol(ctx: Ctx, rule: str):
 
     from . import util
 
-    e2 = ctx.sm.func("expressions.py", "build_expression.expr2symbols")
+    from . import common as _cm
+
+    e2 = _cm.tree_builder(ctx)
     A = util.AV(ctx)
     v, _env = A.returned(e2)
-    cases = util.dispatch_cases(v, ("sym", f"{e2.params[0]}.data"))
+    cases = util.dispatch_cases(v, ("sym", f"{_cm.tree_param(e2)}.data"))
     cv = cases.get("variable")
     key = e2.key("undefined-symbol")
     if cv is None or _av.has_unk(cv):
